@@ -1,5 +1,6 @@
 import Driver.Util
 import MlModel.Model.Owner
+import MlModel.Model.OwnerEnv
 import Std.Data.HashSet
 /-!
 Driver handler `"owner"`.
@@ -47,6 +48,8 @@ def parseOp (pw : Pid → List Wid) (j : Json) : Except String (List Op) := do
   | "next_idle" => return [.nextIdle p (← getNats j "ws") (← Driver.getBool j "acq")]
   | "release" => return [.releaseOne p (← Driver.getNat j "w") (← Driver.getBool j "checked")]
   | "finalize" => return [.finalize p]
+  | "idle" => return [.idleWorkers p]
+  | "call" => return [.callW p (← Driver.getNat j "w")]
   | "run" => return runScript pw p (← Driver.getNat j "tries")
   | "call_and_wait" => return callAndWaitScript pw p
   | "as_completed" => return asCompletedScript p (← (← Driver.getArr j "body").toList.mapM parseBody)
@@ -162,7 +165,8 @@ def pcName : MPc → String
   | .aExit _ => "aExit" | .rEnter => "rEnter" | .rRdLocked1 => "rRdLocked1" | .rRdPool => "rRdPool"
   | .rRdLocked2 => "rRdLocked2" | .rUnlock => "rUnlock" | .rWr => "rWr" | .rExit => "rExit"
   | .vRdLocked => "vRdLocked" | .vRdPool => "vRdPool" | .lRdLocked => "lRdLocked" | .lRdPool => "lRdPool"
-  | .uRd => "uRd"
+  | .cEnter => "cEnter" | .cExit => "cExit" | .iEnter => "iEnter" | .iExit => "iExit"
+  | .kEnter => "kEnter" | .kExit => "kExit"
 
 /-- label of the step thread `t` is about to take (for trace comparison with the real scheduler) -/
 def label (c : Cfg) (t : Tid) : String :=
@@ -269,11 +273,191 @@ def handleExplore (j : Json) : Except String Json := do
     ("bad_exit", toJson ex.badExit),
     ("first_bad", match ex.firstBad with | none => Json.null | some s => Json.str s)]
 
+/-! ### the product with the liveness environment: schedule replay (`xsched`) and model-guided coverage (`xcover`) -/
+
+section XSched
+open MlModel.OwnerEnv
+
+def parseEOp (j : Json) : Except String EOp := do
+  match (← Driver.getStr j "op") with
+  | "die" => return .die (← Driver.getNat j "w")
+  | "revive" => return .revive (← Driver.getNat j "w")
+  | "send" => return .send (← Driver.getNat j "w") (← Driver.getBool j "alive")
+  | "deliver" => return .deliver (← Driver.getNat j "k") (← Driver.getBool j "fail")
+  | "tick" => return .tick (← Driver.getNat j "d")
+  | s => throw s!"bad env op {s}"
+
+/-- (real-code label, program point) of the step thread `t` is about to take -/
+def xlabel (x : X) (t : Tid) : String × String :=
+  match (x.base.T t).cur with
+  | some (cl, _) =>
+    let w := cl.w
+    match cl.pc with
+    | .aEnter => (s!"acquire SL{w}", "aEnter") | .aRdPool => (s!"rdpool {w}", "aRdPool")
+    | .aTry => (s!"tryacquire L{w}", "aTry") | .aWr => (s!"wrpool {w}", "aWr")
+    | .aRd2 => (s!"rdpool {w}", "aRd2") | .aExit _ => (s!"release SL{w}", "aExit")
+    | .rEnter => (s!"acquire SL{w}", "rEnter") | .rRdLocked1 => (s!"locked L{w}", "rRdLocked1")
+    | .rRdPool => (s!"rdpool {w}", "rRdPool") | .rRdLocked2 => (s!"locked L{w}", "rRdLocked2")
+    | .rUnlock => (s!"release L{w}", "rUnlock") | .rWr => (s!"wrpool {w}", "rWr")
+    | .rExit => (s!"release SL{w}", "rExit")
+    | .vRdLocked => (s!"locked L{w}", "vRdLocked") | .vRdPool => (s!"rdpool {w}", "vRdPool")
+    | .lRdLocked => (s!"locked L{w}", "lRdLocked") | .lRdPool => (s!"rdpool {w}", "lRdPool")
+    | .cEnter => (s!"acquire SL{w}", "cEnter") | .cExit => (s!"release SL{w}", "cExit")
+    | .iEnter => (s!"acquire SL{w}", "iEnter")
+    | .iExit =>
+      match x.env.mic t with
+      | .foldAcq .. => ("acquire RL", "i.foldAcq") | .foldRel .. => ("release RL", "i.foldRel")
+      | .getAcq _ => ("acquire RL", "i.getAcq") | .getRel .. => ("release RL", "i.getRel")
+      | _ => (s!"release SL{w}", "iExit")
+    | .kEnter => (s!"acquire SL{w}", "kEnter") | .kExit => (s!"release SL{w}", "kExit")
+  | none =>
+    match (x.base.T t).script with
+    | _ :: _ => ("start", "start")
+    | [] =>
+      match x.env.mic t with
+      | .dieAcq _ => ("acquire RL", "e.die.acq") | .dieRel => ("release RL", "e.die.rel")
+      | .revAcq .. => ("acquire RL", "e.revive.acq") | .revRel => ("release RL", "e.revive.rel")
+      | .hbAcq _ _ al _ => ("acquire RL", if al then "e.hb.register" else "e.hb.unregister")
+      | .hbRel _ => ("release RL", "e.hb.rel")
+      | _ =>
+        match x.env.escript t with
+        | .die _ :: _ => ("start", "e.die") | .revive _ :: _ => ("start", "e.revive")
+        | .send .. :: _ => ("start", "e.send") | .tick _ :: _ => ("start", "e.tick")
+        | .deliver k fail :: _ =>
+          ("start", match x.env.queue with
+            | [] => "e.deliver.empty"
+            | q => if fail then "e.deliver.fail" else
+              match x.env.calls[q.getD (k % q.length) 0]? with
+              | some (.hb .., _) => "e.deliver.hb" | some (.ping _, _) => "e.deliver.ping"
+              | _ => "e.deliver.plain")
+        | [] => ("end", "end")
+
+structure XSetup where
+  nw : Nat
+  pools : List (List Nat)
+  nt : Nat
+  x0 : X
+
+def parseX (j : Json) : Except String XSetup := do
+  let nw ← Driver.getNat j "nworkers"
+  let pools ← parsePools j
+  let pw := mkPw pools
+  let thr ← Driver.getInt j "thr"
+  let now ← Driver.getInt j "now"
+  let reg0 ← (← Driver.getArr j "reg0").toList.mapM (·.getStr?)
+  let ths ← Driver.getArr j "threads"
+  let mut scripts : List (List Op) := []
+  let mut escripts : List (List EOp) := []
+  for tj in ths do
+    let kind ← Driver.getStr tj "kind"
+    let ops ← Driver.getArr tj "ops"
+    if kind == "pool" then
+      let os ← ops.toList.mapM (parseOp pw)
+      scripts := scripts ++ [os.flatten]
+      escripts := escripts ++ [[]]
+    else
+      scripts := scripts ++ [[]]
+      escripts := escripts ++ [← ops.toList.mapM parseEOp]
+  let reg : Registry.Reg := fun a =>
+    match reg0.getD a "absent" with
+    | "alive" => some (some now)
+    | "dead" => some none
+    | _ => none
+  let env : Env := { reg := reg, now := now, thr := thr, escript := fun t => escripts.getD t [] }
+  return ⟨nw, pools, ths.size, ⟨initCfg scripts, env⟩⟩
+
+def xenabled (pw : Pid → List Wid) (nt : Nat) (x : X) : List Nat :=
+  (List.range nt).filter fun t => (xstep? pw x t).isSome
+
+def entryJson : Registry.Entry → Json
+  | none => Json.str "absent"
+  | some none => Json.null
+  | some (some t) => toJson t
+
+def handleXSched (j : Json) : Except String Json := do
+  let s ← parseX j
+  let pw := mkPw s.pools
+  let sched ← (← Driver.getArr j "sched").toList.mapM (·.getNat?)
+  let mut x := s.x0
+  let mut trace : Array Json := #[]
+  let mut enabled : Array Json := #[]
+  let mut regs : Array Json := #[]
+  let mut accepted := true
+  for t in sched do
+    if accepted then
+      let en := xenabled pw s.nt x
+      match xstep? pw x t with
+      | none => accepted := false
+      | some x' =>
+        let (l, pp) := xlabel x t
+        enabled := enabled.push (toJson en)
+        regs := regs.push (Json.arr ((List.range s.nw).map fun w => entryJson (x.env.reg w)).toArray)
+        trace := trace.push (Json.arr #[toJson t, Json.str l, Json.str pp])
+        x := x'
+  let nt := s.nt
+  let c := x.base
+  return Json.mkObj ([
+    ("accepted", Json.bool accepted),
+    ("trace", Json.arr trace), ("enabled_trace", Json.arr enabled), ("reg_trace", Json.arr regs),
+    ("enabled", toJson (xenabled pw nt x)),
+    ("results", Json.arr ((List.range nt).map fun t => Json.arr (((c.T t).results.map resJson).toArray)).toArray),
+    ("finished", toJson ((List.range nt).map fun t =>
+      (c.T t).cur.isNone && (c.T t).script.isEmpty && (x.env.escript t).isEmpty && x.env.mic t == .idle)),
+    ("get", toJson ((List.range s.nw).map fun w => Registry.get x.env.reg w)),
+    ("reg", Json.arr ((List.range s.nw).map fun w => entryJson (x.env.reg w)).toArray)]
+    ++ obsJson s.nw s.pools.length pw c.W)
+
+def xkey (nw nt : Nat) (x : X) : String :=
+  let e := x.env
+  key nw nt x.base ++ toString (repr (
+    (List.range nw).map (fun w => (e.reg w, (e.clients w).pend, (e.clients w).hb)),
+    e.rl, e.now, e.calls, e.queue, (List.range nt).map (fun t => (e.mic t, e.escript t))))
+
+/-- Breadth-first search of the product for, per program point, a shortest schedule whose last step
+is taken at that program point (model-guided coverage: the harness replays them on the real code). -/
+partial def xcover (pw : Pid → List Wid) (nw nt : Nat) (x0 : X) (limit : Nat) :
+    Nat × List (String × List Nat) := Id.run do
+  let mut seen : Std.HashSet String := {}
+  let mut found : List (String × List Nat) := []
+  let mut frontier : Array (X × List Nat) := #[(x0, [])]
+  let mut states := 0
+  seen := seen.insert (xkey nw nt x0)
+  while !frontier.isEmpty && states < limit do
+    let mut next : Array (X × List Nat) := #[]
+    for (x, path) in frontier do
+      states := states + 1
+      for t in List.range nt do
+        match xstep? pw x t with
+        | none => pure ()
+        | some x' =>
+          let pp := (xlabel x t).2
+          if !(found.any fun f => f.1 == pp) then
+            found := (pp, (t :: path).reverse) :: found
+          let k := xkey nw nt x'
+          if !seen.contains k then
+            seen := seen.insert k
+            next := next.push (x', t :: path)
+    frontier := next
+  return (states, found)
+
+def handleXCover (j : Json) : Except String Json := do
+  let s ← parseX j
+  let pw := mkPw s.pools
+  let limit ← Driver.getNat j "limit"
+  let (states, found) := xcover pw s.nw s.nt s.x0 limit
+  return Json.mkObj [
+    ("states", toJson states),
+    ("found", Json.arr (found.map fun (pp, sch) => Json.mkObj [("pp", Json.str pp), ("sched", toJson sch)]).toArray)]
+
+end XSched
+
 def handle (j : Json) : Except String Json := do
   match (← Driver.getStr j "mode") with
   | "seq" => handleSeq j
   | "sched" => handleSched j
   | "explore" => handleExplore j
+  | "xsched" => handleXSched j
+  | "xcover" => handleXCover j
   | m => throw s!"bad owner mode {m}"
 
 end Driver.Owner
